@@ -405,7 +405,7 @@ class Padding(WidgetDecoration[WrappedWidget], typing.Generic[WrappedWidget]):
         if size:
             maxvals = (size[0] - left - right,) + size[1:]
             return self._original_widget.keypress(maxvals, key)
-        return self._original_widget.keypress((), key)
+        return self._original_widget.keypress((self._width_amount,) if self._width_type == WHSettings.GIVEN else (), key)
 
     def get_cursor_coords(self, size: tuple[()] | tuple[int] | tuple[int, int]) -> tuple[int, int] | None:
         """Return the (x,y) coordinates of cursor within self._original_widget."""
@@ -418,7 +418,7 @@ class Padding(WidgetDecoration[WrappedWidget], typing.Generic[WrappedWidget]):
             if maxvals[0] == 0:
                 return None
         else:
-            maxvals = ()
+            maxvals = (self._width_amount,) if self._width_type == WHSettings.GIVEN else ()
 
         if (coords := self._original_widget.get_cursor_coords(maxvals)) is not None:
             x, y = coords
@@ -445,7 +445,7 @@ class Padding(WidgetDecoration[WrappedWidget], typing.Generic[WrappedWidget]):
             maxvals = (maxcol - left - right,) + size[1:]
         else:
             maxcol = self.pack((), True)[0]
-            maxvals = ()
+            maxvals = (self._width_amount,) if self._width_type == WHSettings.GIVEN else ()
 
         if isinstance(x, int):
             if x < left:
@@ -476,7 +476,7 @@ class Padding(WidgetDecoration[WrappedWidget], typing.Generic[WrappedWidget]):
                 return False
             maxvals = (maxcol - left - right,) + size[1:]
         else:
-            maxvals = ()
+            maxvals = (self._width_amount,) if self._width_type == WHSettings.GIVEN else ()
 
         return self._original_widget.mouse_event(maxvals, event, button, col - left, row, focus)
 
@@ -489,7 +489,7 @@ class Padding(WidgetDecoration[WrappedWidget], typing.Generic[WrappedWidget]):
         if size:
             maxvals = (size[0] - left - right,) + size[1:]
         else:
-            maxvals = ()
+            maxvals = (self._width_amount,) if self._width_type == WHSettings.GIVEN else ()
 
         x = self._original_widget.get_pref_col(maxvals)
         if isinstance(x, int):
